@@ -104,7 +104,11 @@ def inject(d, toks, case, fault):
     elif fault == 'option-after-ballot':
         toks[fb + 1:fb + 1] = ['[tie'] + [str(c) for c in range(1, nc + 1)] + [']']
     elif fault == 'bad-cid':
-        toks[fb:fb] = ['1', d.choice([str(nc + 1), '99999', 'zz', '1=zz', '-1', '1==2', '=']), '0']
+        bad = d.choice([str(nc + 1), '99999', 'zz', '1=zz', '-1', '1==2', '=', '\u00b2', '1=\u00b2', '\u0663', '\u2460', '\uff11', '1\u00b3', '\u0be7'])
+        if d.p(70):
+            toks[fb:fb] = ['1', bad, '0']
+        else:       # the same token in an option's candidate list
+            toks[2:2] = [d.choice(['[tie', '[withdrawn', '[undeclared']), bad, ']']
     elif fault == 'nick-dup':
         toks[2:2] = ['[nick'] + ['q'] * nc + [']']
     elif fault == 'tie-short':
